@@ -235,6 +235,18 @@ class SymEval:
             if type(a) is type(b) and isinstance(a, (str, list, int)):
                 return a + b
             raise Unsupported("+ on mixed values")
+        if isinstance(e, ast.BinOp) and isinstance(e.op, (ast.Sub, ast.Mult, ast.BitAnd, ast.BitOr, ast.BitXor, ast.LShift, ast.RShift, ast.FloorDiv, ast.Mod)):
+            a, b = self.ev(e.left, env, fi), self.ev(e.right, env, fi)
+            if isinstance(a, int) and isinstance(b, int) and not isinstance(a, bool) and not isinstance(b, bool):
+                import operator as _op
+
+                fn = {ast.Sub: _op.sub, ast.Mult: _op.mul, ast.BitAnd: _op.and_, ast.BitOr: _op.or_, ast.BitXor: _op.xor, ast.LShift: _op.lshift, ast.RShift: _op.rshift, ast.FloorDiv: _op.floordiv, ast.Mod: _op.mod}[type(e.op)]
+                if isinstance(e.op, (ast.FloorDiv, ast.Mod)) and b == 0:
+                    raise Unsupported("division by zero")
+                if isinstance(e.op, ast.LShift) and b > 64:
+                    raise Unsupported("shift too large")
+                return fn(a, b)
+            raise Unsupported("integer operator on non-integers")
         if isinstance(e, (ast.List, ast.Tuple)):
             out2: list[Any] = []
             for x in e.elts:
